@@ -56,7 +56,7 @@ func Strfmt(ctx *runtime.Task, funcExpr *ast.CallExpr) *errchain.PlError {
 	}
 
 	for i := 2; i < len(funcExpr.Param); i++ {
-		v, _, _ := runtime.RunStmt(ctx, funcExpr.Param[i])
+		v, _, _ := runArg(ctx, funcExpr.Param[i])
 		outdata = append(outdata, v)
 	}
 
